@@ -91,6 +91,7 @@ class LSym:
         return Ptr(name, 0)
     def global_region(self, gname):
         name = "global:" + gname
+        if gname in getattr(self.mod, "ambiguous", ()): raise Unsupported("global %s is defined differently in two linked modules" % gname)
         if name not in self.regions:
             size, items = self.mod.global_init(gname)
             R = Region(name, size, kind="global"); self.regions[name] = R
@@ -624,6 +625,7 @@ class LSym:
         return d
 
     def call(self, name, args, comment=None):
+        if name in getattr(self.mod, "ambiguous", ()): raise Unsupported("symbol %s is defined differently in two linked modules" % name)
         name = self.mod.aliases.get(name, name)
         self.calls[name] = self.calls.get(name, 0) + 1
         for pat, f in self.intercept:
